@@ -2165,8 +2165,8 @@ class TypeBlocks(ContainerOperand):
                 t_start = t_end
                 continue
 
-            # will always reduce to a 1D array
-            part = block[target]
+            # will always reduce to a 1D array; a 2D block is read column by column, so that the order of the result (columns, then rows) does not depend on how columns are grouped into blocks
+            part = block[target] if block.ndim == 1 else block.T[target.T]
             if dt_resolve is None:
                 dt_resolve = part.dtype
             else:
@@ -2179,7 +2179,7 @@ class TypeBlocks(ContainerOperand):
                 for row_pos in np.nonzero(target)[0]:
                     coords.append((row_pos, t_start))
             else:
-                for row_pos, col_pos in zip(*np.nonzero(target)):
+                for col_pos, row_pos in zip(*np.nonzero(target.T)):
                     coords.append((row_pos, t_start + col_pos))
             t_start = t_end
 
